@@ -21,8 +21,11 @@ def main():
     print("MIR dump: %s (%.0fs)" % (p, dt))
     b = mir_engine.build_replay("radix-engine")
     print("native replay binary (radix-engine): %s (%.0fs)" % (b, time.time() - t0))
-    p, dt = mir_engine.dump_mir("radix-engine")
-    print("MIR dump: %s (%.0fs)" % (p, dt))
+    b = mir_engine.build_replay("radix-substate-store-impls")
+    print("native replay binary (substate store): %s (%.0fs)" % (b, time.time() - t0))
+    for crate in ("radix-transactions", "radix-engine-interface", "radix-substate-store-impls", "radix-engine"):
+        p, dt = mir_engine.dump_mir(crate)
+        print("MIR dump: %s (%.0fs)" % (p, dt))
     print("setup done in %.0fs" % (time.time() - t0))
     return 0
 
